@@ -1639,6 +1639,10 @@ def Mandatory(cls, **_kwargs):
     elif issubclass(cls, Array):
         (k,v), = cls._type_info.items()
         if v.Attributes.min_occurs == 0:
-            cls._type_info[k] = Mandatory(v)
+            # the member is made mandatory in the new type, not in the
+            # array type that was passed in.
+            retval = cls.customize(**kwargs)
+            retval._replace_field(k, Mandatory(v))
+            return retval
 
     return cls.customize(**kwargs)
